@@ -7,8 +7,14 @@ mod common {
 mod frames {
     include!("../sweep/src/frames.rs");
 }
+mod c10 {
+    include!("c10.rs");
+}
 mod c11 {
     include!("c11.rs");
+}
+mod c12 {
+    include!("c12.rs");
 }
 mod c16 {
     include!("c16.rs");
@@ -72,7 +78,9 @@ fn run(id: &str) -> i32 {
 
 fn dispatch(id: &str, ctx: &Ctx, rep: &Report) -> bool {
     match id {
+        "C10" => c10::run(ctx, rep),
         "C11" => c11::run(ctx, rep),
+        "C12" => c12::run(ctx, rep),
         "C16" => c16::run(ctx, rep),
         "C17" => c17::run(ctx, rep),
         _ => {
@@ -85,7 +93,9 @@ fn dispatch(id: &str, ctx: &Ctx, rep: &Report) -> bool {
 
 fn dispatch_replay(id: &str, w: &serde_json::Value, rep: &Report) -> bool {
     match id {
+        "C10" => c10::replay(w, rep),
         "C11" => c11::replay(w, rep),
+        "C12" => c12::replay(w, rep),
         "C16" => c16::replay(w, rep),
         "C17" => c17::replay(w, rep),
         _ => {
